@@ -159,7 +159,7 @@ func check(it *proto.Item, r *proto.Result) []proto.Issue {
 	return nil
 }
 
-var F = &proto.Family{ID: "C08", Gen: gen}
+var F = &proto.Family{ID: "C08", Gen: gen, NoSecondRun: true} // its bounds are absolute virtual times
 
 // ---- (2) public IP against stalled / failing providers ------------------------------------------------------
 
